@@ -68,6 +68,20 @@ func scenarioSched(c *vrun.Ctx) {
 			res[2] = !still
 			res[3] = true
 		}},
+		{"logout-vs-request-in-extension-window", func(res *[4]bool) {
+			// a logout must end the session also when another request with the same cookie is being
+			// answered (and extends the session) at that moment
+			live.ExpiresAt = vtime.Now().Add(5 * time.Minute)
+			vsched.GoHarness("request", func() { GetSession(live.ID) })
+			vsched.GoHarness("logout", func() {
+				if s, ok := GetSession(live.ID); ok {
+					s.Destroy()
+				}
+			})
+			vsched.JoinHarness()
+			_, again := GetSession(live.ID)
+			res[0], res[1], res[2], res[3] = true, true, !again, again
+		}},
 	}
 	for _, sc := range scens {
 		sc := sc
